@@ -614,8 +614,8 @@ def execute_derived(d, case, res, mon, T, B, S, V, elem_dofs, prom, rule):
             E[:, :, c, c] = V
         E = E.reshape(S.npoints, n * nv, nv)
         # order-agnostic first (the promise is the set {phi_j e_c}), documented order second
-        rows_w = sorted(W.transpose(1, 0, 2).reshape(n * nv, -1).tolist())
-        rows_e = sorted(E.transpose(1, 0, 2).reshape(n * nv, -1).tolist())
+        rows_w = sorted(W.transpose(1, 0, 2).reshape(n * nv, S.npoints * nv).tolist())      # (explicit sizes: n may be 0 after removedofs)
+        rows_e = sorted(E.transpose(1, 0, 2).reshape(n * nv, S.npoints * nv).tolist())
         if rows_w != rows_e:
             sub.cmp('vector basis equals {phi_j e_c}', W, E, 'all points')
         mon.failed |= sub.failed
